@@ -72,23 +72,28 @@ Section Sim.
 End Sim.
 
 Section Machine.
-  Variable visit : option visit_fn.
+  Variable visit : option visit_fn.             (* a callback that does not raise *)
+  Variable rr : bool.                           (* any value of reraise_visit *)
   Variable defs : table obj.
   Notation srbI := (srb impl_blank visit defs).
   Notation childrenI := (srb_children impl_blank visit defs).
-  Notation runM := (run visit defs).
-  Notation stepM := (step visit defs).
+  Notation runM := (run (lift visit) rr defs).
+  Notation stepM := (step (lift visit) rr defs).
+
+  Lemma call_visit_lift : forall p ky v l,
+    call_visit (lift visit) rr p ky v l = inl (do_visit visit p ky v l).
+  Proof. intros. unfold call_visit, do_visit, lift. destruct visit; reflexivity. Qed.
 
   Lemma run_step : forall f st it rest st',
     stk st = it :: rest -> stepM it rest st = inl st' -> runM (S f) st = runM f st'.
   Proof. intros f st it rest st' Hs Hst. cbn [run]. rewrite Hs, Hst. reflexivity. Qed.
 
   Lemma visit_phase_ok : forall s rg p0 acc nr pt l c ky v,
-    visit_phase visit (mkSt s rg ((p0, acc) :: nr) pt l c) ky v =
+    visit_phase (lift visit) rr (mkSt s rg ((p0, acc) :: nr) pt l c) ky v =
     inl (mkSt s rg ((p0, acc ++ opt_list (fst (do_visit visit pt ky v l))) :: nr) pt
               (snd (do_visit visit pt ky v l)) v).
   Proof.
-    intros. unfold visit_phase. cbn [pth lg nis stk reg].
+    intros. unfold visit_phase. cbn [pth lg nis stk reg]. rewrite call_visit_lift.
     destruct (do_visit visit pt ky v l) as [[item|] lg']; cbn [fst snd opt_list].
     - reflexivity.
     - rewrite app_nil_r. reflexivity.
@@ -186,12 +191,12 @@ Section Machine.
 
   (* MAIN: the machine is the recursion *)
   Theorem machine_is_recursion : forall root,
-    remap visit defs root = srb_root impl_blank visit defs root.
+    remap (lift visit) rr defs root = srb_root impl_blank visit defs root.
   Proof.
     intro root. unfold remap, srb_root, init.
     destruct root as [n|id k items|id k|k|id k].
     - cbn [osize]. cbn [Nat.mul Nat.add run stk step obj_id reg lg pth nis cur oref_of].
-      unfold visit_phase. cbn [pth lg nis stk reg].
+      unfold visit_phase. cbn [pth lg nis stk reg]. rewrite call_visit_lift.
       destruct (do_visit visit [] KNone (OLeaf n) _) as [[item|] lg']; reflexivity.
     - destruct (srb impl_blank visit defs true [] KNone (ONode id k items) [] []) as [[v m] lg0] eqn:E.
       rewrite srb_node in E. cbn [t_get] in E. cbv zeta in E.
@@ -213,21 +218,51 @@ Section Machine.
       + discriminate.
       + cbn [osize]. fold (items_size items). lia.
     - cbn [osize]. cbn [Nat.mul Nat.add run stk step obj_id reg lg pth nis cur oref_of t_get].
-      unfold visit_phase. cbn [pth lg nis stk reg].
+      unfold visit_phase. cbn [pth lg nis stk reg]. rewrite call_visit_lift.
       destruct (do_visit visit [] KNone (ORef id k) _) as [[item|] lg']; reflexivity.
     - cbn [osize]. cbn [Nat.mul Nat.add run stk step obj_id reg lg pth nis cur oref_of].
-      unfold visit_phase. cbn [pth lg nis stk reg].
+      unfold visit_phase. cbn [pth lg nis stk reg]. rewrite call_visit_lift.
       destruct (do_visit visit [] KNone (OBlank k) _) as [[item|] lg']; reflexivity.
     - cbn [osize]. cbn [Nat.mul Nat.add run stk step obj_id reg lg pth nis cur oref_of].
-      unfold visit_phase. cbn [pth lg nis stk reg].
+      unfold visit_phase. cbn [pth lg nis stk reg]. rewrite call_visit_lift.
       destruct (do_visit visit [] KNone (OAlias id k) _) as [[item|] lg']; reflexivity.
   Qed.
 
   (* self-referential structures terminate: the step budget 2*size+1 always suffices *)
-  Corollary remap_terminates : forall root, remap visit defs root <> OutOfFuel.
+  Corollary remap_terminates : forall root, remap (lift visit) rr defs root <> OutOfFuel.
   Proof.
     intro root. rewrite machine_is_recursion. unfold srb_root.
     destruct root; try (destruct (do_visit _ _ _ _ _) as [[?|] ?]; discriminate).
     destruct (srb _ _ _ _ _ _ _ _ _) as [[? ?] ?]. discriminate.
   Qed.
 End Machine.
+
+(* reraise_visit=False: a raising callback behaves as one that answers True *)
+Definition total (mv : option mvisit_fn) : option visit_fn :=
+  match mv with
+  | Some f => Some (fun p k x => match f p k x with Some a => a | None => Put None None end)
+  | None => None
+  end.
+
+Lemma call_visit_total : forall mv rr p ky v l,
+  call_visit mv false p ky v l = call_visit (lift (total mv)) rr p ky v l.
+Proof.
+  intros. unfold call_visit, lift, total. destruct mv as [f|]; [|reflexivity].
+  destruct (f p ky (erase v)); reflexivity.
+Qed.
+
+Theorem remap_no_reraise : forall mv rr defs root,
+  remap mv false defs root = remap (lift (total mv)) rr defs root.
+Proof.
+  intros mv rr defs root. unfold remap. generalize (init root). generalize (2 * osize root + 1).
+  assert (HV : forall st ky v, visit_phase mv false st ky v = visit_phase (lift (total mv)) rr st ky v).
+  { intros. unfold visit_phase. rewrite (call_visit_total mv rr). reflexivity. }
+  assert (HS : forall it rest st, step mv false defs it rest st = step (lift (total mv)) rr defs it rest st).
+  { intros. unfold step. destruct it as [rt ky o|ky id k].
+    - destruct (match obj_id o with Some id => t_get (reg st) id | None => None end); [apply HV|].
+      destruct o; try apply HV. reflexivity.
+    - destruct (nis st) as [|[p0 ni] nr]; [reflexivity|]. destruct nr; [reflexivity|apply HV]. }
+  induction n as [|n IH]; intro st; cbn [run]; [reflexivity|].
+  destruct (stk st) as [|it rest]; [reflexivity|]. rewrite HS.
+  destruct (step (lift (total mv)) rr defs it rest st); [apply IH|reflexivity].
+Qed.
